@@ -2,6 +2,7 @@ import M3d.Model.Bounded
 import Mathlib.Tactic.Ring
 import Mathlib.Tactic.Linarith
 import Mathlib.Tactic.FieldSimp
+import Mathlib.Tactic.LinearCombination
 import Mathlib.Algebra.Order.Field.Basic
 /-!
 # Lemmas behind C03: boxes, folds of `Min`/`Max`, one lemma per combinator.
@@ -9,6 +10,8 @@ import Mathlib.Algebra.Order.Field.Basic
 Everything is for an arbitrary linear ordered field `K` (so for ℚ — the instance the driver
 executes — and for ℝ).
 -/
+set_option linter.unusedSectionVars false
+set_option linter.unusedVariables false
 namespace M3d.Bd
 
 variable {K : Type} [Field K] [LinearOrder K] [IsStrictOrderedRing K]
@@ -347,5 +350,1006 @@ theorem lin_corner (a x0 x1 x : K) (h0 : x0 ≤ x) (h1 : x ≤ x1) :
   rcases le_total 0 a with ha | ha
   · exact Or.inl ⟨mul_le_mul_of_nonneg_left h0 ha, mul_le_mul_of_nonneg_left h1 ha⟩
   · exact Or.inr ⟨mul_le_mul_of_nonpos_left h1 ha, mul_le_mul_of_nonpos_left h0 ha⟩
+
+/-! ### `ApplyBounds` encloses the image of the box -/
+
+theorem lin3_bounds (a b c x0 x1 y0 y1 z0 z1 x y z lo hi : K)
+    (hx0 : x0 ≤ x) (hx1 : x ≤ x1) (hy0 : y0 ≤ y) (hy1 : y ≤ y1) (hz0 : z0 ≤ z) (hz1 : z ≤ z1)
+    (hlo : ∀ u ∈ [x0, x1], ∀ v ∈ [y0, y1], ∀ w ∈ [z0, z1], lo ≤ a * u + b * v + c * w)
+    (hhi : ∀ u ∈ [x0, x1], ∀ v ∈ [y0, y1], ∀ w ∈ [z0, z1], a * u + b * v + c * w ≤ hi) :
+    lo ≤ a * x + b * y + c * z ∧ a * x + b * y + c * z ≤ hi := by
+  have m0 : ∀ u : K, u ∈ [x0, x1] ↔ u = x0 ∨ u = x1 := by intro u; simp
+  have m1 : ∀ u : K, u ∈ [y0, y1] ↔ u = y0 ∨ u = y1 := by intro u; simp
+  have m2 : ∀ u : K, u ∈ [z0, z1] ↔ u = z0 ∨ u = z1 := by intro u; simp
+  rcases lin_corner a x0 x1 x hx0 hx1 with ⟨ax0, ax1⟩ | ⟨ax0, ax1⟩ <;>
+  rcases lin_corner b y0 y1 y hy0 hy1 with ⟨by0, by1⟩ | ⟨by0, by1⟩ <;>
+  rcases lin_corner c z0 z1 z hz0 hz1 with ⟨cz0, cz1⟩ | ⟨cz0, cz1⟩
+  · exact ⟨by linarith [hlo x0 (by simp) y0 (by simp) z0 (by simp)], by linarith [hhi x1 (by simp) y1 (by simp) z1 (by simp)]⟩
+  · exact ⟨by linarith [hlo x0 (by simp) y0 (by simp) z1 (by simp)], by linarith [hhi x1 (by simp) y1 (by simp) z0 (by simp)]⟩
+  · exact ⟨by linarith [hlo x0 (by simp) y1 (by simp) z0 (by simp)], by linarith [hhi x1 (by simp) y0 (by simp) z1 (by simp)]⟩
+  · exact ⟨by linarith [hlo x0 (by simp) y1 (by simp) z1 (by simp)], by linarith [hhi x1 (by simp) y0 (by simp) z0 (by simp)]⟩
+  · exact ⟨by linarith [hlo x1 (by simp) y0 (by simp) z0 (by simp)], by linarith [hhi x0 (by simp) y1 (by simp) z1 (by simp)]⟩
+  · exact ⟨by linarith [hlo x1 (by simp) y0 (by simp) z1 (by simp)], by linarith [hhi x0 (by simp) y1 (by simp) z0 (by simp)]⟩
+  · exact ⟨by linarith [hlo x1 (by simp) y1 (by simp) z0 (by simp)], by linarith [hhi x0 (by simp) y0 (by simp) z1 (by simp)]⟩
+  · exact ⟨by linarith [hlo x1 (by simp) y1 (by simp) z1 (by simp)], by linarith [hhi x0 (by simp) y0 (by simp) z0 (by simp)]⟩
+
+theorem corners3_mem (lo hi : Pt K) (u v w : K) (hu : u ∈ [lo 0, hi 0]) (hv : v ∈ [lo 1, hi 1]) (hw : w ∈ [lo 2, hi 2]) :
+    mk3 u v w ∈ corners3 lo hi := by
+  simp only [List.mem_cons, List.not_mem_nil, or_false] at hu hv hw
+  rcases hu with rfl | rfl <;> rcases hv with rfl | rfl <;> rcases hw with rfl | rfl <;> simp [corners3]
+
+theorem corners2_mem (lo hi : Pt K) (u v : K) (hu : u ∈ [lo 0, hi 0]) (hv : v ∈ [lo 1, hi 1]) :
+    mk3 u v (lo 2) ∈ corners2 lo hi := by
+  simp only [List.mem_cons, List.not_mem_nil, or_false] at hu hv
+  rcases hu with rfl | rfl <;> rcases hv with rfl | rfl <;> simp [corners2]
+
+theorem matrix3_encloses (m mi : Mat K) (b : Box K) (p : Pt K) (h : InBox true b p) :
+    InBox true ((Xf1.matrix3 m mi).applyBounds b) ((Xf1.matrix3 m mi).apply p) := by
+  have h0 := h 0 (active_true _); have h1 := h 1 (active_true _); have h2 := h 2 (active_true _)
+  have key : ∀ u ∈ [b.lo 0, b.hi 0], ∀ v ∈ [b.lo 1, b.hi 1], ∀ w ∈ [b.lo 2, b.hi 2], ∀ i,
+      ((Xf1.matrix3 m mi).applyBounds b).lo i ≤ (m.mulCol (mk3 u v w)) i ∧
+      (m.mulCol (mk3 u v w)) i ≤ ((Xf1.matrix3 m mi).applyBounds b).hi i := by
+    intro u hu v hv w hw i
+    have hm : m.mulCol (mk3 u v w) ∈ (corners3 b.lo b.hi).map m.mulCol :=
+      List.mem_map_of_mem (corners3_mem b.lo b.hi u v w hu hv hw)
+    simp only [Xf1.applyBounds]
+    generalize (corners3 b.lo b.hi).map m.mulCol = l at hm
+    cases l with
+    | nil => exact absurd hm (List.not_mem_nil)
+    | cons c cs => exact hull_mem c cs _ hm i
+  intro i _
+  simp only [Xf1.apply]
+  rcases fin3 i with rfl | rfl | rfl
+  · have := lin3_bounds m.a0 m.a1 m.a2 _ _ _ _ _ _ (p 0) (p 1) (p 2) _ _ h0.1 h0.2 h1.1 h1.2 h2.1 h2.2
+      (fun u hu v hv w hw => by have := (key u hu v hv w hw 0).1; simpa [Mat.mulCol] using this)
+      (fun u hu v hv w hw => by have := (key u hu v hv w hw 0).2; simpa [Mat.mulCol] using this)
+    simpa [Mat.mulCol] using this
+  · have := lin3_bounds m.a3 m.a4 m.a5 _ _ _ _ _ _ (p 0) (p 1) (p 2) _ _ h0.1 h0.2 h1.1 h1.2 h2.1 h2.2
+      (fun u hu v hv w hw => by have := (key u hu v hv w hw 1).1; simpa [Mat.mulCol] using this)
+      (fun u hu v hv w hw => by have := (key u hu v hv w hw 1).2; simpa [Mat.mulCol] using this)
+    simpa [Mat.mulCol] using this
+  · have := lin3_bounds m.a6 m.a7 m.a8 _ _ _ _ _ _ (p 0) (p 1) (p 2) _ _ h0.1 h0.2 h1.1 h1.2 h2.1 h2.2
+      (fun u hu v hv w hw => by have := (key u hu v hv w hw 2).1; simpa [Mat.mulCol] using this)
+      (fun u hu v hv w hw => by have := (key u hu v hv w hw 2).2; simpa [Mat.mulCol] using this)
+    simpa [Mat.mulCol] using this
+
+theorem matrix2_encloses (a b' c d ia ib ic id : K) (b : Box K) (p : Pt K) (h : InBox false b p) :
+    InBox false ((Xf1.matrix2 a b' c d ia ib ic id).applyBounds b) ((Xf1.matrix2 a b' c d ia ib ic id).apply p) := by
+  have h0 := h 0 (active0 _); have h1 := h 1 (active1 _)
+  have key : ∀ u ∈ [b.lo 0, b.hi 0], ∀ v ∈ [b.lo 1, b.hi 1], ∀ i,
+      ((Xf1.matrix2 a b' c d ia ib ic id).applyBounds b).lo i ≤ (mulCol2 a b' c d (mk3 u v (b.lo 2))) i ∧
+      (mulCol2 a b' c d (mk3 u v (b.lo 2))) i ≤ ((Xf1.matrix2 a b' c d ia ib ic id).applyBounds b).hi i := by
+    intro u hu v hv i
+    have hm : mulCol2 a b' c d (mk3 u v (b.lo 2)) ∈ (corners2 b.lo b.hi).map (mulCol2 a b' c d) :=
+      List.mem_map_of_mem (corners2_mem b.lo b.hi u v hu hv)
+    simp only [Xf1.applyBounds]
+    generalize (corners2 b.lo b.hi).map (mulCol2 a b' c d) = l at hm
+    cases l with
+    | nil => exact absurd hm (List.not_mem_nil)
+    | cons c cs => exact hull_mem c cs _ hm i
+  intro i hi
+  simp only [Xf1.apply]
+  rcases fin3 i with rfl | rfl | rfl
+  · have := lin3_bounds a b' 0 _ _ _ _ 0 0 (p 0) (p 1) 0 _ _ h0.1 h0.2 h1.1 h1.2 le_rfl le_rfl
+      (fun u hu v hv w _ => by have := (key u hu v hv 0).1; simpa [mulCol2] using this)
+      (fun u hu v hv w _ => by have := (key u hu v hv 0).2; simpa [mulCol2] using this)
+    simpa [mulCol2] using this
+  · have := lin3_bounds c d 0 _ _ _ _ 0 0 (p 0) (p 1) 0 _ _ h0.1 h0.2 h1.1 h1.2 le_rfl le_rfl
+      (fun u hu v hv w _ => by have := (key u hu v hv 1).1; simpa [mulCol2] using this)
+      (fun u hu v hv w _ => by have := (key u hu v hv 1).2; simpa [mulCol2] using this)
+    simpa [mulCol2] using this
+  · rcases hi with hi | hi
+    · exact absurd hi (by decide)
+    · exact absurd hi (by decide)
+
+/-- `ApplyBounds` soundness per transform kind (negative `Scale`/`VecScale` factors included:
+the code swaps with `min.Min(max), max.Max(min)`). -/
+theorem Xf1.applyBounds_encloses (d3 : Bool) (t : Xf1 K) (ht : t.Fits d3) (b : Box K) (p : Pt K)
+    (h : InBox d3 b p) : InBox d3 (t.applyBounds b) (t.apply p) := by
+  cases t with
+  | translate o =>
+    intro i hi
+    simp only [Xf1.applyBounds, Xf1.apply, padd_get]
+    exact ⟨by linarith [(h i hi).1], by linarith [(h i hi).2]⟩
+  | scale s =>
+    intro i hi
+    simp only [Xf1.applyBounds, Xf1.apply, pmin_get, pmax_get, pscale_get]
+    exact scale_between (h i hi).1 (h i hi).2
+  | vecScale v =>
+    intro i hi
+    simp only [Xf1.applyBounds, Xf1.apply, pmin_get, pmax_get, pmul_get]
+    exact scale_between (h i hi).1 (h i hi).2
+  | matrix3 m mi =>
+    have : d3 = true := ht
+    subst this
+    exact matrix3_encloses m mi b p h
+  | matrix2 a b' c d ia ib ic id =>
+    have : d3 = false := ht
+    subst this
+    exact matrix2_encloses a b' c d ia ib ic id b p h
+
+theorem applyBoundsL_encloses (d3 : Bool) (ts : List (Xf1 K)) (ht : ∀ t ∈ ts, t.Fits d3) (b : Box K) (p : Pt K)
+    (h : InBox d3 b p) : InBox d3 (applyBoundsL ts b) (applyL ts p) := by
+  induction ts generalizing b p with
+  | nil => exact h
+  | cons t ts ih =>
+    simp only [applyBoundsL, applyL, List.foldl_cons] at ih ⊢
+    exact ih (fun t' ht' => ht t' (List.mem_cons_of_mem _ ht')) _ _
+      (Xf1.applyBounds_encloses d3 t (ht t List.mem_cons_self) b p h)
+
+/-- `ApplyBounds` keeps (or, for scalings and matrices, establishes) `min ≤ max`. -/
+theorem Xf1.applyBounds_ordered (d3 : Bool) (t : Xf1 K) (b : Box K) (h : ∀ i, Active d3 i → b.lo i ≤ b.hi i) :
+    ∀ i, Active d3 i → (t.applyBounds b).lo i ≤ (t.applyBounds b).hi i := by
+  intro i hi
+  cases t with
+  | translate o => simp only [Xf1.applyBounds, padd_get]; linarith [h i hi]
+  | scale s => simp only [Xf1.applyBounds, pmin_get, pmax_get]; exact le_trans (min_le_right _ _) (le_max_left _ _)
+  | vecScale v => simp only [Xf1.applyBounds, pmin_get, pmax_get]; exact le_trans (min_le_right _ _) (le_max_left _ _)
+  | matrix3 m mi =>
+    simp only [Xf1.applyBounds]
+    generalize (corners3 b.lo b.hi).map m.mulCol = l
+    cases l with
+    | nil => exact h i hi
+    | cons c cs => exact hull_ordered c cs i
+  | matrix2 a b' c d ia ib ic id =>
+    simp only [Xf1.applyBounds]
+    generalize (corners2 b.lo b.hi).map (mulCol2 a b' c d) = l
+    cases l with
+    | nil => exact h i hi
+    | cons c cs => exact hull_ordered c cs i
+
+theorem applyBoundsL_ordered (d3 : Bool) (ts : List (Xf1 K)) (b : Box K) (h : ∀ i, Active d3 i → b.lo i ≤ b.hi i) :
+    ∀ i, Active d3 i → (applyBoundsL ts b).lo i ≤ (applyBoundsL ts b).hi i := by
+  induction ts generalizing b with
+  | nil => exact h
+  | cons t ts ih =>
+    simp only [applyBoundsL, List.foldl_cons] at ih ⊢
+    exact ih _ (Xf1.applyBounds_ordered d3 t b h)
+
+theorem xform_bounded (ts : List (Xf1 K)) (s : Solid K) : Bounded (xformS ts s) := checked_bounded _ _ _
+
+theorem xform_ordered (ts : List (Xf1 K)) (s : Solid K) (hs : Ordered s) : Ordered (xformS ts s) := by
+  intro i hi
+  exact applyBoundsL_ordered s.d3 ts s.box hs i hi
+
+/-- `TransformSolid` does not cut: the image of every point of a bounded operand is contained. -/
+theorem xform_no_cut (ts : List (Xf1 K)) (s : Solid K) (hs : Bounded s) (hf : ∀ t ∈ ts, t.Fits s.d3)
+    (hi : ∀ t ∈ ts, t.Invertible) (q : Pt K) (hq : s.f q = true) : (xformS ts s).f (applyL ts q) = true := by
+  unfold xformS
+  rw [checked_f]
+  refine ⟨applyBoundsL_encloses s.d3 ts hf s.box q (hs q hq), ?_⟩
+  rw [applyL_inverseL ts hi q]; exact hq
+
+/-! ## Stacking -/
+
+theorem stackAux_bounded (z : K) (rest : List (Solid K)) : ∀ t ∈ stackAux z rest, Bounded t := by
+  induction rest generalizing z with
+  | nil => intro t ht; simp [stackAux] at ht
+  | cons s ss ih =>
+    intro t ht
+    simp only [stackAux, List.mem_cons] at ht
+    rcases ht with rfl | ht
+    · exact xform_bounded _ _
+    · exact ih _ t ht
+
+theorem stack_bounded (a : Solid K) (rest : List (Solid K)) (ha : Bounded a) : Bounded (stackS a rest) :=
+  joined_bounded a _ ha (stackAux_bounded _ rest)
+
+theorem stack_ordered (a : Solid K) (rest : List (Solid K)) (ha : Ordered a) : Ordered (stackS a rest) :=
+  joined_ordered a _ ha
+
+theorem stacked_bounded (a : Solid K) (rest : List (Solid K)) : Bounded (stackedS a rest) := by
+  intro p hp
+  simp only [stackedS, Bool.and_eq_true] at hp ⊢
+  exact (inB_iff _ _ _).mp hp.1
+
+theorem le_stackedMax (m : Pt K) (rest : List (Solid K)) (i : Fin 3) : m i ≤ (stackedMax m rest) i := by
+  induction rest generalizing m with
+  | nil => simp [stackedMax]
+  | cons s ss ih =>
+    simp only [stackedMax]
+    refine le_trans ?_ (ih _)
+    rw [pmax_get]; exact le_max_left _ _
+
+theorem stacked_ordered (a : Solid K) (rest : List (Solid K)) (ha : Ordered a) (ha3 : a.d3 = true) :
+    Ordered (stackedS a rest) := by
+  intro i _
+  simp only [stackedS]
+  have h1 := (foldl_union_lo rest a.box i).1
+  have h2 := ha i (ha3 ▸ active_true i)
+  have h3 := le_stackedMax a.box.hi rest i
+  simp only [joinedS]
+  linarith
+
+/-! ## `ProfileSolid`, `CrossSectionSolid`/`SliceSolid`, `RevolveSolid` -/
+
+theorem profile_bounded (s : Solid K) (a b : K) : Bounded (profileS s a b) := checked_bounded _ _ _
+theorem cross_bounded (s : Solid K) (axis : Fin 3) (v : K) : Bounded (crossS s axis v) := checked_bounded _ _ _
+theorem revolve_bounded (sq : K → K) (eps : K) (s : Solid K) (axis : Pt K) : Bounded (revolveS sq eps s axis) :=
+  checked_bounded _ _ _
+
+theorem profile_ordered (s : Solid K) (a b : K) (hs : Ordered s) (hab : a ≤ b) : Ordered (profileS s a b) := by
+  intro i _
+  simp only [profileS, checkedS]
+  rcases fin3 i with rfl | rfl | rfl
+  · simpa using hs 0 (active0 _)
+  · simpa using hs 1 (active1 _)
+  · simpa using hab
+
+/-- `ProfileSolid` does not cut. -/
+theorem profile_no_cut (s : Solid K) (a b : K) (hs : Bounded s) (p : Pt K)
+    (hp : s.f (mk3 (p 0) (p 1) 0) = true) (hz : a ≤ p 2 ∧ p 2 ≤ b) : (profileS s a b).f p = true := by
+  unfold profileS
+  rw [checked_f]
+  refine ⟨?_, hp⟩
+  have h := hs _ hp
+  intro i _
+  rcases fin3 i with rfl | rfl | rfl
+  · simpa using h 0 (active0 _)
+  · simpa using h 1 (active1 _)
+  · simpa using hz
+
+theorem to2D_get (axis : Fin 3) (c : Pt K) :
+    (to2D axis c) 0 = c (if axis.val = 0 then 1 else 0) ∧ (to2D axis c) 1 = c (if axis.val = 2 then 1 else 2) := by
+  rcases fin3 axis with rfl | rfl | rfl <;> simp [to2D]
+
+theorem cross_ordered (s : Solid K) (axis : Fin 3) (v : K) (hs : Ordered s) (h3 : s.d3 = true) :
+    Ordered (crossS s axis v) := by
+  intro i hi
+  simp only [crossS, checkedS] at hi ⊢
+  have hall : ∀ j, s.box.lo j ≤ s.box.hi j := fun j => hs j (h3 ▸ active_true j)
+  rcases fin3 i with rfl | rfl | rfl
+  · rw [(to2D_get axis _).1, (to2D_get axis _).1]; exact hall _
+  · rw [(to2D_get axis _).2, (to2D_get axis _).2]; exact hall _
+  · rcases hi with hi | hi <;> exact absurd hi (by decide)
+
+/-- `CrossSectionSolid` / `SliceSolid` do not cut. -/
+theorem cross_no_cut (s : Solid K) (axis : Fin 3) (v : K) (hs : Bounded s) (h3 : s.d3 = true) (p : Pt K)
+    (hp : s.f (to3D axis v p) = true) : (crossS s axis v).f p = true := by
+  unfold crossS
+  rw [checked_f]
+  refine ⟨?_, hp⟩
+  have h := hs _ hp
+  have hall : ∀ j, s.box.lo j ≤ (to3D axis v p) j ∧ (to3D axis v p) j ≤ s.box.hi j :=
+    fun j => h j (h3 ▸ active_true j)
+  intro i hi
+  rcases fin3 i with rfl | rfl | rfl
+  · rw [(to2D_get axis _).1, (to2D_get axis _).1]
+    rcases fin3 axis with rfl | rfl | rfl
+    · simpa [to3D] using hall 1
+    · simpa [to3D] using hall 0
+    · simpa [to3D] using hall 0
+  · rw [(to2D_get axis _).2, (to2D_get axis _).2]
+    rcases fin3 axis with rfl | rfl | rfl
+    · simpa [to3D] using hall 2
+    · simpa [to3D] using hall 2
+    · simpa [to3D] using hall 1
+  · rcases hi with hi | hi <;> exact absurd hi (by decide)
+
+/-- `RevolveSolid` does not cut, given that the bounding cylinder's box encloses every point the
+profile can produce (`cylinder_bounded` provides this). -/
+theorem revolve_no_cut (sq : K → K) (eps : K) (s : Solid K) (axis : Pt K) (c : Pt K)
+    (hbox : InBox true (revolveS sq eps s axis).box c)
+    (hc : s.f (mk3 (pnorm sq (projectOut sq c (pnormalize sq axis))) (pdot (pnormalize sq axis) c) 0) = true) :
+    (revolveS sq eps s axis).f c = true := by
+  unfold revolveS at hbox ⊢
+  simp only [checkedS] at hbox
+  rw [checked_f]
+  exact ⟨hbox, hc⟩
+
+/-! ## `ClampAxis` -/
+
+theorem clamp_bounded (s : Solid K) (axis : Fin 3) (mn mx : Option K) : Bounded (clampS s axis mn mx) := by
+  unfold clampS
+  simp only
+  split_ifs <;> exact checked_bounded _ _ _
+
+theorem pset_get (a : Pt K) (ax : Fin 3) (v : K) (i : Fin 3) : (pset a ax v) i = if i = ax then v else a i := by
+  rcases fin3 i with rfl | rfl | rfl <;> rcases fin3 ax with rfl | rfl | rfl <;> simp [pset]
+
+theorem clamp_ordered (s : Solid K) (axis : Fin 3) (mn mx : Option K) (hs : Ordered s) :
+    Ordered (clampS s axis mn mx) := by
+  unfold clampS
+  simp only
+  split_ifs with h
+  · intro i _; simp [checkedS]
+  · intro i hi
+    simp only [checkedS] at hi ⊢
+    rw [pset_get, pset_get]
+    split_ifs with hia
+    · exact not_lt.mp h
+    · exact hs i hi
+
+/-! ## `SDFToSolid`, `SmoothJoin` -/
+
+/-- what a signed distance function of a set inside `box` satisfies: the value at `p` is at most the
+distance from `p` to each face plane, measured inwards (so it is `≤ -gap` outside the box). -/
+def SDFBoxed (s : SDFL K) : Prop :=
+  ∀ p i, Active s.d3 i → s.d p ≤ p i - s.box.lo i ∧ s.d p ≤ s.box.hi i - p i
+
+theorem sdf_bounded (s : SDFL K) (outset : K) : Bounded (sdfS s outset) := checked_bounded _ _ _
+
+theorem boxGrow_get (b : Box K) (r : K) (i : Fin 3) : (boxGrow b r).lo i = b.lo i - r ∧ (boxGrow b r).hi i = b.hi i + r := by
+  refine ⟨?_, ?_⟩
+  · simp only [boxGrow, paddS_get]; ring
+  · simp only [boxGrow, paddS_get]
+
+/-- `SDFToSolid` does not cut: wherever `sdf > -outset`, the point is in the box grown by `outset`. -/
+theorem sdf_no_cut (s : SDFL K) (outset : K) (hs : SDFBoxed s) (p : Pt K) (hp : -outset < s.d p) :
+    (sdfS s outset).f p = true := by
+  unfold sdfS
+  rw [checked_f]
+  refine ⟨?_, by simpa using hp⟩
+  intro i hi
+  rw [(boxGrow_get _ _ i).1, (boxGrow_get _ _ i).2]
+  have := hs p i hi
+  constructor <;> linarith [this.1, this.2]
+
+theorem unionBoxes_lo (rest : List (Box K)) (acc : Box K) (i : Fin 3) :
+    (unionBoxes acc rest).lo i ≤ acc.lo i ∧ ∀ b ∈ rest, (unionBoxes acc rest).lo i ≤ b.lo i := by
+  induction rest generalizing acc with
+  | nil => simp [unionBoxes]
+  | cons s ss ih =>
+    simp only [unionBoxes, List.foldl_cons, List.mem_cons, forall_eq_or_imp] at ih ⊢
+    have h := ih (boxUnion acc s)
+    have hu : (boxUnion acc s).lo i = min (acc.lo i) (s.lo i) := by simp [boxUnion, pmin_get]
+    exact ⟨le_trans h.1 (hu ▸ min_le_left _ _), le_trans h.1 (hu ▸ min_le_right _ _), h.2⟩
+
+theorem unionBoxes_hi (rest : List (Box K)) (acc : Box K) (i : Fin 3) :
+    acc.hi i ≤ (unionBoxes acc rest).hi i ∧ ∀ b ∈ rest, b.hi i ≤ (unionBoxes acc rest).hi i := by
+  induction rest generalizing acc with
+  | nil => simp [unionBoxes]
+  | cons s ss ih =>
+    simp only [unionBoxes, List.foldl_cons, List.mem_cons, forall_eq_or_imp] at ih ⊢
+    have h := ih (boxUnion acc s)
+    have hu : (boxUnion acc s).hi i = max (acc.hi i) (s.hi i) := by simp [boxUnion, pmax_get]
+    exact ⟨le_trans (hu ▸ le_max_left _ _) h.1, le_trans (hu ▸ le_max_right _ _) h.1, h.2⟩
+
+theorem smooth_bounded (r : K) (first : SDFL K) (rest : List (SDFL K)) : Bounded (smoothS r first rest) :=
+  checked_bounded _ _ _
+
+/-- the bounds of `SmoothJoin` are the union grown by `r`: ordered whenever the first operand is and `0 ≤ r` -/
+theorem smooth_ordered (r : K) (first : SDFL K) (rest : List (SDFL K)) (hr : 0 ≤ r)
+    (hf : ∀ i, Active first.d3 i → first.box.lo i ≤ first.box.hi i) : Ordered (smoothS r first rest) := by
+  intro i hi
+  simp only [smoothS, checkedS] at hi ⊢
+  rw [(boxGrow_get _ _ i).1, (boxGrow_get _ _ i).2]
+  have h1 := (unionBoxes_lo (rest.map (·.box)) first.box i).1
+  have h2 := (unionBoxes_hi (rest.map (·.box)) first.box i).1
+  linarith [hf i hi]
+
+/-- every remembered distance is one of the values seen -/
+theorem smoothStep_mem (i : Nat) (cd : Option K × Option K) (d x : K)
+    (hx : (smoothStep i cd d).1 = some x ∨ (smoothStep i cd d).2 = some x) :
+    x = d ∨ cd.1 = some x ∨ cd.2 = some x := by
+  unfold smoothStep at hx
+  split_ifs at hx with h0 h1
+  · rcases hx with hx | hx
+    · left; simpa using hx.symm
+    · right; right; exact hx
+  · cases h : cd.1 with
+    | none =>
+      simp only [h] at hx
+      rcases hx with hx | hx
+      · left; simpa using hx.symm
+      · simp at hx
+    | some d0 =>
+      simp only [h] at hx
+      split_ifs at hx
+      · rcases hx with hx | hx
+        · left; simpa using hx.symm
+        · right; left; exact hx
+      · rcases hx with hx | hx
+        · right; left; exact hx
+        · left; simpa using hx.symm
+  · cases h : cd.1 with
+    | none =>
+      simp only [h] at hx
+      rcases hx with hx | hx
+      · left; simpa using hx.symm
+      · simp at hx
+    | some d0 =>
+      simp only [h] at hx
+      split_ifs at hx
+      · rcases hx with hx | hx
+        · left; simpa using hx.symm
+        · right; left; exact hx
+      · cases h2 : cd.2 with
+        | none =>
+          simp only [h2] at hx
+          rcases hx with hx | hx
+          · right; left; exact hx
+          · left; simpa using hx.symm
+        | some d1 =>
+          simp only [h2] at hx
+          split_ifs at hx
+          · rcases hx with hx | hx
+            · right; left; exact hx
+            · left; simpa using hx.symm
+          · rcases hx with hx | hx
+            · right; left; rw [← h]; exact hx
+            · right; right; rw [← h2]; exact hx
+
+theorem smoothLoop_mem (ds : List K) (i : Nat) (cd cd' : Option K × Option K)
+    (h : smoothLoop i cd ds = some cd') (x : K) (hx : cd'.1 = some x ∨ cd'.2 = some x) :
+    x ∈ ds ∨ cd.1 = some x ∨ cd.2 = some x := by
+  induction ds generalizing i cd with
+  | nil =>
+    simp only [smoothLoop, Option.some.injEq] at h
+    subst h; exact Or.inr hx
+  | cons d ds ih =>
+    simp only [smoothLoop] at h
+    split_ifs at h
+    rcases ih _ _ h with h1 | h1
+    · exact Or.inl (List.mem_cons_of_mem _ h1)
+    · rcases smoothStep_mem i cd d x h1 with rfl | h2
+      · exact Or.inl List.mem_cons_self
+      · exact Or.inr h2
+
+theorem smoothLoop_none (ds : List K) (i : Nat) (cd : Option K × Option K)
+    (h : smoothLoop i cd ds = none) : ∃ d ∈ ds, 0 < d := by
+  induction ds generalizing i cd with
+  | nil => simp [smoothLoop] at h
+  | cons d ds ih =>
+    simp only [smoothLoop] at h
+    split_ifs at h with hd
+    · exact ⟨d, List.mem_cons_self, hd⟩
+    · obtain ⟨d', hd', hp⟩ := ih _ _ h
+      exact ⟨d', List.mem_cons_of_mem _ hd', hp⟩
+
+theorem smoothTerm_pos (r : K) (o : Option K) (h : 0 < smoothTerm r o) : ∃ x, o = some x ∧ -r < x := by
+  cases o with
+  | none => simp [smoothTerm] at h
+  | some x =>
+    refine ⟨x, rfl, ?_⟩
+    simp only [smoothTerm, smax_eq] at h
+    by_contra hc
+    have : x + r ≤ 0 := by linarith [not_lt.mp hc]
+    rw [max_eq_left this] at h
+    exact lt_irrefl _ h
+
+/-- the closure of `SmoothJoin` only accepts points within `r` of an operand: some SDF value exceeds `-r`. -/
+theorem smoothPred_true (r : K) (hr : 0 ≤ r) (ds : List K) (h : smoothPred r ds = true) : ∃ d ∈ ds, -r < d := by
+  unfold smoothPred at h
+  cases hl : smoothLoop 0 (none, none) ds with
+  | none =>
+    obtain ⟨d, hd, hp⟩ := smoothLoop_none ds 0 _ hl
+    exact ⟨d, hd, by linarith⟩
+  | some cd =>
+    simp only [hl, decide_eq_true_eq] at h
+    have hn1 : 0 ≤ smoothTerm r cd.1 := by
+      cases cd.1 <;> simp [smoothTerm, smax_eq]
+    have hn2 : 0 ≤ smoothTerm r cd.2 := by
+      cases cd.2 <;> simp [smoothTerm, smax_eq]
+    have hpos : 0 < smoothTerm r cd.1 ∨ 0 < smoothTerm r cd.2 := by
+      by_contra hc
+      simp only [not_or, not_lt] at hc
+      have e1 : smoothTerm r cd.1 = 0 := le_antisymm hc.1 hn1
+      have e2 : smoothTerm r cd.2 = 0 := le_antisymm hc.2 hn2
+      rw [e1, e2] at h
+      nlinarith [mul_self_nonneg r]
+    rcases hpos with hp | hp
+    · obtain ⟨x, hx, hxr⟩ := smoothTerm_pos r _ hp
+      rcases smoothLoop_mem ds 0 _ cd hl x (Or.inl hx) with hm | hm | hm
+      · exact ⟨x, hm, hxr⟩
+      · simp at hm
+      · simp at hm
+    · obtain ⟨x, hx, hxr⟩ := smoothTerm_pos r _ hp
+      rcases smoothLoop_mem ds 0 _ cd hl x (Or.inr hx) with hm | hm | hm
+      · exact ⟨x, hm, hxr⟩
+      · simp at hm
+      · simp at hm
+
+/-- `SmoothJoin` does not cut: every point its closure accepts lies in the union box grown by `r`
+(operands of the same dimension, SDFs boxed, `0 ≤ r`). -/
+theorem smooth_no_cut (r : K) (hr : 0 ≤ r) (first : SDFL K) (rest : List (SDFL K))
+    (hb : ∀ s ∈ first :: rest, SDFBoxed s) (hd : ∀ s ∈ rest, s.d3 = first.d3) (p : Pt K)
+    (hp : smoothPred r ((first :: rest).map (fun s => s.d p)) = true) : (smoothS r first rest).f p = true := by
+  unfold smoothS
+  rw [checked_f]
+  refine ⟨?_, hp⟩
+  obtain ⟨d, hdm, hdr⟩ := smoothPred_true r hr _ hp
+  obtain ⟨s, hs, rfl⟩ := List.mem_map.mp hdm
+  intro i hi
+  rw [(boxGrow_get _ _ i).1, (boxGrow_get _ _ i).2]
+  have hact : Active s.d3 i := by
+    rcases List.mem_cons.mp hs with rfl | h
+    · exact hi
+    · rw [hd s h]; exact hi
+  have hsb := hb s hs p i hact
+  have hlo : (unionBoxes first.box (rest.map (·.box))).lo i ≤ s.box.lo i := by
+    rcases List.mem_cons.mp hs with rfl | h
+    · exact (unionBoxes_lo _ _ i).1
+    · exact (unionBoxes_lo _ _ i).2 _ (List.mem_map_of_mem h)
+  have hhi : s.box.hi i ≤ (unionBoxes first.box (rest.map (·.box))).hi i := by
+    rcases List.mem_cons.mp hs with rfl | h
+    · exact (unionBoxes_hi _ _ i).1
+    · exact (unionBoxes_hi _ _ i).2 _ (List.mem_map_of_mem h)
+  constructor <;> linarith [hsb.1, hsb.2]
+
+
+/-! ## `ColliderSolid` (inset / hollow) -/
+
+/-- what the solids need from a collider whose surface is closed and lies in `box`:
+points inside are in the box; a ball of radius `r` touching the surface is centred within `r` of
+the box; a point inside whose `r`-ball misses the surface is at least `r` inside the box. -/
+structure ColOK (c : ColL K) : Prop where
+  inside_box : ∀ p, c.inside p = true → InBox c.d3 c.box p
+  sphere_box : ∀ p r, 0 ≤ r → c.sphere p r = true → InBox c.d3 (boxGrow c.box r) p
+  inset_box : ∀ p r, 0 < r → c.inside p = true → c.sphere p r = false → InBox c.d3 (boxGrow c.box (-r)) p
+
+theorem inset_bounded (c : ColL K) (inset : K) : Bounded (insetS c inset) := by
+  intro p hp
+  simp only [insetS, Bool.and_eq_true] at hp ⊢
+  exact (inB_iff _ _ _).mp hp.1
+
+/-- `NewColliderSolidInset` always reports `min ≤ max` (`max := min.Max(c.Max().Sub(insetVec))`) -/
+theorem inset_ordered (c : ColL K) (inset : K) : Ordered (insetS c inset) := by
+  intro i _
+  simp only [insetS, pmax_get]
+  exact le_max_left _ _
+
+theorem hollow_bounded (c : ColL K) (r : K) : Bounded (hollowS c r) := by
+  intro p hp
+  simp only [hollowS, Bool.and_eq_true] at hp ⊢
+  exact (inB_iff _ _ _).mp hp.1
+
+theorem hollow_ordered (c : ColL K) (r : K) (hr : 0 ≤ r) (hc : ∀ i, Active c.d3 i → c.box.lo i ≤ c.box.hi i) :
+    Ordered (hollowS c r) := by
+  intro i hi
+  simp only [hollowS, psub_get, padd_get] at hi ⊢
+  have : (mk3 r r r : Pt K) i = r := by rcases fin3 i with rfl | rfl | rfl <;> simp
+  rw [this]; linarith [hc i hi]
+
+/-- the inset / outset box does not cut `ColliderContains(c, p, inset)` -/
+theorem inset_no_cut (c : ColL K) (hc : ColOK c) (inset : K) (p : Pt K)
+    (hp : colliderContains c p inset = true) : (insetS c inset).f p = true := by
+  simp only [insetS, Bool.and_eq_true]
+  refine ⟨(inB_iff _ _ _).mpr ?_, hp⟩
+  intro i hi
+  have hv : (mk3 inset inset inset : Pt K) i = inset := by rcases fin3 i with rfl | rfl | rfl <;> simp
+  simp only [pmax_get, padd_get, psub_get, hv]
+  unfold colliderContains at hp
+  cases hin : c.inside p with
+  | false =>
+    simp only [hin, Bool.not_false, if_true] at hp
+    split_ifs at hp with hm
+    · have := hc.sphere_box p (-inset) (by linarith) hp i hi
+      rw [(boxGrow_get _ _ i).1, (boxGrow_get _ _ i).2] at this
+      exact ⟨by linarith [this.1], le_max_of_le_right (by linarith [this.2])⟩
+  | true =>
+    simp only [hin, Bool.not_true, Bool.false_eq_true, if_false, Bool.or_eq_true, decide_eq_true_eq,
+      Bool.not_eq_true'] at hp
+    rcases le_or_gt inset 0 with hm | hm
+    · have := hc.inside_box p hin i hi
+      exact ⟨by linarith [this.1], le_max_of_le_right (by linarith [this.2])⟩
+    · rcases hp with hp | hp
+      · exact absurd hp (not_le.mpr hm)
+      · have := hc.inset_box p inset hm hin hp i hi
+        rw [(boxGrow_get _ _ i).1, (boxGrow_get _ _ i).2] at this
+        exact ⟨by linarith [this.1], le_max_of_le_right (by linarith [this.2])⟩
+
+/-- the hollow box (`± r`) does not cut `SphereCollision(p, r)` -/
+theorem hollow_no_cut (c : ColL K) (hc : ColOK c) (r : K) (hr : 0 < r) (p : Pt K)
+    (hp : c.sphere p r = true) : (hollowS c r).f p = true := by
+  simp only [hollowS, Bool.and_eq_true]
+  refine ⟨(inB_iff _ _ _).mpr ?_, by simp [hr, hp]⟩
+  intro i hi
+  have hv : (mk3 r r r : Pt K) i = r := by rcases fin3 i with rfl | rfl | rfl <;> simp
+  simp only [padd_get, psub_get, hv]
+  have := hc.sphere_box p r hr.le hp i hi
+  rw [(boxGrow_get _ _ i).1, (boxGrow_get _ _ i).2] at this
+  exact this
+
+/-! ## `MetaballSolid` -/
+
+/-- the contract of `Metaball` (bounds of `{field ≤ 0}`, `MetaballDistBound` a lower bound of the field
+at a given Euclidean distance, non-decreasing) seen from the box: at a point whose distance to the
+box exceeds `d` along some axis, the field is at least `MetaballDistBound(d)`. -/
+def MBBounded (m : MBL K) : Prop :=
+  ∀ p i d, Active m.d3 i → (p i < m.box.lo i - d ∨ m.box.hi i + d < p i) → m.distBound d ≤ m.field p
+
+theorem metaball_bounded (fall : K → K) (rt outset : K) (first : MBL K) (rest : List (MBL K)) :
+    Bounded (metaballS fall rt outset first rest) := checked_bounded _ _ _
+
+theorem foldl_add_le (ms : List (MBL K)) (f g : MBL K → K) (h : ∀ m ∈ ms, f m ≤ g m) (a b : K) (hab : a ≤ b) :
+    ms.foldl (fun s m => s + f m) a ≤ ms.foldl (fun s m => s + g m) b := by
+  induction ms generalizing a b with
+  | nil => simpa using hab
+  | cons m ms ih =>
+    simp only [List.foldl_cons]
+    apply ih (fun m' hm' => h m' (List.mem_cons_of_mem _ hm'))
+    linarith [h m List.mem_cons_self]
+
+theorem mbBisect_le (v : K → K) (thr : K) (k : Nat) (lo hi : K) (h : v hi ≤ thr) :
+    v (mbBisect v thr k lo hi) ≤ thr := by
+  induction k generalizing lo hi with
+  | zero => simpa [mbBisect] using h
+  | succ k ih =>
+    simp only [mbBisect]
+    split_ifs with hm
+    · exact ih _ _ h
+    · exact ih _ _ (not_lt.mp hm)
+
+/-- the outset search of `MetaballSolid` only ever returns an outset whose upper-bound field sum does
+not exceed the threshold (the bisection keeps `valueForOutset(maxOutset) ≤ threshold`) -/
+theorem mbOutset_ok (v : K → K) (thr diag tiny o : K) (h : mbOutset v thr diag tiny = some o) : v o ≤ thr := by
+  unfold mbOutset at h
+  simp only at h
+  split_ifs at h with hc
+  simp only [Option.some.injEq] at h
+  subst h
+  exact mbBisect_le v thr 32 _ _ (not_lt.mp hc)
+
+/-- `MetaballSolid` does not cut: with a non-increasing falloff, operands honouring the `Metaball`
+contract and an outset whose `valueForOutset` is at most the threshold, every point whose field sum
+exceeds the threshold lies in the union box grown by the outset. -/
+theorem metaball_no_cut (fall : K → K) (hfall : ∀ a b, a ≤ b → fall b ≤ fall a) (rt outset : K)
+    (first : MBL K) (rest : List (MBL K)) (hm : ∀ m ∈ first :: rest, MBBounded m)
+    (hd : ∀ m ∈ rest, m.d3 = first.d3)
+    (hv : valueForOutset fall (first :: rest) outset ≤ fall rt) (p : Pt K)
+    (hp : fall rt < (first :: rest).foldl (fun sum m => sum + fall (m.field p)) 0) :
+    (metaballS fall rt outset first rest).f p = true := by
+  unfold metaballS
+  rw [checked_f]
+  refine ⟨?_, by simpa using hp⟩
+  by_contra hout
+  unfold InBox at hout
+  simp only [not_forall] at hout
+  obtain ⟨i, hi, hbad⟩ := hout
+  rw [(boxGrow_get _ _ i).1, (boxGrow_get _ _ i).2] at hbad
+  have hside : p i < (unionBoxes first.box (rest.map (·.box))).lo i - outset ∨
+      (unionBoxes first.box (rest.map (·.box))).hi i + outset < p i := by
+    by_contra hc
+    simp only [not_or, not_lt] at hc
+    exact hbad hc
+  have hle : (first :: rest).foldl (fun sum m => sum + fall (m.field p)) 0 ≤
+      (first :: rest).foldl (fun sum m => sum + fall (m.distBound outset)) 0 := by
+    apply foldl_add_le _ _ _ _ _ _ le_rfl
+    intro m hmm
+    apply hfall
+    have hact : Active m.d3 i := by
+      rcases List.mem_cons.mp hmm with rfl | h
+      · exact hi
+      · rw [hd m h]; exact hi
+    have hlo : (unionBoxes first.box (rest.map (·.box))).lo i ≤ m.box.lo i := by
+      rcases List.mem_cons.mp hmm with rfl | h
+      · exact (unionBoxes_lo _ _ i).1
+      · exact (unionBoxes_lo _ _ i).2 _ (List.mem_map_of_mem h)
+    have hhi : m.box.hi i ≤ (unionBoxes first.box (rest.map (·.box))).hi i := by
+      rcases List.mem_cons.mp hmm with rfl | h
+      · exact (unionBoxes_hi _ _ i).1
+      · exact (unionBoxes_hi _ _ i).2 _ (List.mem_map_of_mem h)
+    apply hm m hmm p i outset hact
+    rcases hside with h | h
+    · left; linarith
+    · right; linarith
+  unfold valueForOutset at hv
+  linarith
+
+/-! ## Polytope, rect set, height map -/
+
+theorem polytope_bounded (d3 : Bool) (box : Box K) (cs : List (Pt K × K)) : Bounded (polytopeS d3 box cs) := by
+  intro p hp
+  simp only [polytopeS, Bool.and_eq_true] at hp ⊢
+  exact (inB_iff _ _ _).mp hp.1
+
+theorem rectTree_bounded (t : RectTree K) (p : Pt K) (h : t.contains p = true) : InBox true t.box p := by
+  cases t with
+  | empty => simp [RectTree.contains] at h
+  | single lo hi => simpa [RectTree.contains, RectTree.box, inB_iff] using h
+  | node b axis cutoff below above =>
+    simp only [RectTree.contains, Bool.and_eq_true] at h
+    exact (inB_iff _ _ _).mp h.1
+
+theorem rectSet_bounded (t : RectTree K) : Bounded (rectSetS t) := fun p h => rectTree_bounded t p h
+
+theorem heightMap_bounded (lo2 hi2 : Pt K) (a b : K) (g : Pt K → Bool) : Bounded (heightMapS lo2 hi2 a b g) :=
+  checked_bounded _ _ _
+
+/-! ## Primitive leaves -/
+
+theorem rect_bounded' (d3 : Bool) (lo hi : Pt K) : Bounded (rectS d3 lo hi) := by
+  intro p hp
+  simp only [rectS] at hp ⊢
+  exact (inB_iff _ _ _).mp hp
+
+theorem sq_le_imp {a r : K} (h : a * a ≤ r * r) (hr : 0 ≤ r) : -r ≤ a ∧ a ≤ r := by
+  constructor
+  · by_contra hc
+    have : a < -r := not_le.mp hc
+    nlinarith
+  · by_contra hc
+    have : r < a := not_le.mp hc
+    nlinarith
+
+theorem sq_axis_le_distSq (d3 : Bool) (p c : Pt K) (i : Fin 3) (hi : Active d3 i) :
+    (p i - c i) * (p i - c i) ≤ distSq d3 p c := by
+  unfold distSq
+  simp only
+  cases d3
+  · simp only [Bool.false_eq_true, if_false]
+    rcases fin3 i with rfl | rfl | rfl
+    · nlinarith [mul_self_nonneg (p 1 - c 1)]
+    · nlinarith [mul_self_nonneg (p 0 - c 0)]
+    · rcases hi with hi | hi <;> exact absurd hi (by decide)
+  · simp only [if_true]
+    rcases fin3 i with rfl | rfl | rfl
+    · nlinarith [mul_self_nonneg (p 1 - c 1), mul_self_nonneg (p 2 - c 2)]
+    · nlinarith [mul_self_nonneg (p 0 - c 0), mul_self_nonneg (p 2 - c 2)]
+    · nlinarith [mul_self_nonneg (p 0 - c 0), mul_self_nonneg (p 1 - c 1)]
+
+theorem distSq_nonneg (d3 : Bool) (p c : Pt K) : 0 ≤ distSq d3 p c := by
+  unfold distSq
+  simp only
+  cases d3
+  · simp only [Bool.false_eq_true, if_false]
+    nlinarith [mul_self_nonneg (p 0 - c 0), mul_self_nonneg (p 1 - c 1)]
+  · simp only [if_true]
+    nlinarith [mul_self_nonneg (p 0 - c 0), mul_self_nonneg (p 1 - c 1), mul_self_nonneg (p 2 - c 2)]
+
+theorem sphere_bounded' (d3 : Bool) (c : Pt K) (r : K) : Bounded (sphereS d3 c r) := by
+  intro p hp i hi
+  simp only [sphereS, Bool.and_eq_true, decide_eq_true_eq] at hp hi ⊢
+  have h1 := sq_axis_le_distSq d3 p c i hi
+  have h2 := sq_le_imp (le_trans h1 hp.2) hp.1
+  rw [paddS_get, paddS_get]
+  constructor <;> linarith [h2.1, h2.2]
+
+/-- a square-root function on the non-negative elements -/
+def SqrtOK (sq : K → K) : Prop := ∀ x, 0 ≤ x → 0 ≤ sq x ∧ sq x * sq x = x
+
+theorem sqrt_le_iff (sq : K → K) (hsq : SqrtOK sq) (s r : K) (hs : 0 ≤ s) : sq s ≤ r ↔ 0 ≤ r ∧ s ≤ r * r := by
+  obtain ⟨h0, h1⟩ := hsq s hs
+  constructor
+  · intro h
+    exact ⟨le_trans h0 h, by nlinarith⟩
+  · rintro ⟨hr, h⟩
+    rw [← h1] at h
+    exact (sq_le_imp h hr).2
+
+/-- `Sphere.Contains` as written (`Dist(center) <= radius`, with the square root) equals the
+square-root-free form the exact mode executes. -/
+theorem sphere_contains_sqrt (sq : K → K) (hsq : SqrtOK sq) (d3 : Bool) (c : Pt K) (r : K) (p : Pt K) :
+    sphereContainsSqrt sq d3 c r p = (sphereS d3 c r).f p := by
+  have := sqrt_le_iff sq hsq (distSq d3 p c) r (distSq_nonneg d3 p c)
+  simp only [sphereContainsSqrt, sphereS]
+  rw [Bool.eq_iff_iff]
+  simp only [decide_eq_true_eq, Bool.and_eq_true]
+  exact this
+
+/-- Capsule: a point within `r` of a point `q` of the segment `P1 P2` lies in
+`[P1.Min(P2) - r, P1.Max(P2) + r]`. -/
+theorem capsule_bounded' (d3 : Bool) (p1 p2 : Pt K) (r t : K) (ht0 : 0 ≤ t) (ht1 : t ≤ 1) (hr : 0 ≤ r) (p : Pt K)
+    (hp : distSq d3 p (padd p1 (pscale (psub p2 p1) t)) ≤ r * r) : InBox d3 (capsuleBox p1 p2 r) p := by
+  intro i hi
+  have h1 := sq_axis_le_distSq d3 p (padd p1 (pscale (psub p2 p1) t)) i hi
+  have h2 := sq_le_imp (le_trans h1 hp) hr
+  simp only [padd_get, pscale_get, psub_get] at h2
+  simp only [capsuleBox, paddS_get, pmin_get, pmax_get]
+  have hq1 : min (p1 i) (p2 i) ≤ p1 i + (p2 i - p1 i) * t := by
+    rcases le_total (p1 i) (p2 i) with h | h
+    · rw [min_eq_left h]; nlinarith
+    · rw [min_eq_right h]; nlinarith
+  have hq2 : p1 i + (p2 i - p1 i) * t ≤ max (p1 i) (p2 i) := by
+    rcases le_total (p1 i) (p2 i) with h | h
+    · rw [max_eq_right h]; nlinarith
+    · rw [max_eq_left h]; nlinarith
+  constructor <;> linarith [h2.1, h2.2]
+
+/-- Cauchy–Schwarz in three variables -/
+theorem cs3 (a0 a1 a2 b0 b1 b2 : K) :
+    (a0 * b0 + a1 * b1 + a2 * b2) * (a0 * b0 + a1 * b1 + a2 * b2) ≤
+      (a0 * a0 + a1 * a1 + a2 * a2) * (b0 * b0 + b1 * b1 + b2 * b2) := by
+  nlinarith [mul_self_nonneg (a0 * b1 - a1 * b0), mul_self_nonneg (a0 * b2 - a2 * b0), mul_self_nonneg (a1 * b2 - a2 * b1)]
+
+/-- **Axis extent of a tilted disc.**  A vector `w` orthogonal to the unit normal `n` with
+`|w|² ≤ ρ²` satisfies `wᵢ² ≤ ρ²·(1 − nᵢ²)` on every axis: the extent of the unit disc with unit
+normal `n` along axis `i` is `√(1 − nᵢ²)`. -/
+theorem disc_axis_extent (n w : Pt K) (rho2 : K) (hn : pdot n n = 1) (hw : pdot w n = 0)
+    (hww : pdot w w ≤ rho2) (i : Fin 3) : w i * w i ≤ rho2 * (1 - n i * n i) := by
+  simp only [pdot] at hn hw hww
+  have h1 : 0 ≤ 1 - n i * n i := by
+    rcases fin3 i with rfl | rfl | rfl <;> nlinarith [mul_self_nonneg (n 0), mul_self_nonneg (n 1), mul_self_nonneg (n 2)]
+  -- w i = w · (e_i - n_i n), |e_i - n_i n|² = 1 - n_i²
+  have key : w i * w i ≤ (w 0 * w 0 + w 1 * w 1 + w 2 * w 2) * (1 - n i * n i) := by
+    rcases fin3 i with rfl | rfl | rfl
+    · have := cs3 (w 0) (w 1) (w 2) (1 - n 0 * n 0) (-(n 0 * n 1)) (-(n 0 * n 2))
+      have e1 : w 0 * (1 - n 0 * n 0) + w 1 * -(n 0 * n 1) + w 2 * -(n 0 * n 2) = w 0 := by linear_combination (-(n 0)) * hw
+      have e2 : (1 - n 0 * n 0) * (1 - n 0 * n 0) + -(n 0 * n 1) * -(n 0 * n 1) + -(n 0 * n 2) * -(n 0 * n 2) = 1 - n 0 * n 0 := by
+        linear_combination (n 0 * n 0) * hn
+      rw [e1, e2] at this; exact this
+    · have := cs3 (w 0) (w 1) (w 2) (-(n 1 * n 0)) (1 - n 1 * n 1) (-(n 1 * n 2))
+      have e1 : w 0 * -(n 1 * n 0) + w 1 * (1 - n 1 * n 1) + w 2 * -(n 1 * n 2) = w 1 := by linear_combination (-(n 1)) * hw
+      have e2 : -(n 1 * n 0) * -(n 1 * n 0) + (1 - n 1 * n 1) * (1 - n 1 * n 1) + -(n 1 * n 2) * -(n 1 * n 2) = 1 - n 1 * n 1 := by
+        linear_combination (n 1 * n 1) * hn
+      rw [e1, e2] at this; exact this
+    · have := cs3 (w 0) (w 1) (w 2) (-(n 2 * n 0)) (-(n 2 * n 1)) (1 - n 2 * n 2)
+      have e1 : w 0 * -(n 2 * n 0) + w 1 * -(n 2 * n 1) + w 2 * (1 - n 2 * n 2) = w 2 := by linear_combination (-(n 2)) * hw
+      have e2 : -(n 2 * n 0) * -(n 2 * n 0) + -(n 2 * n 1) * -(n 2 * n 1) + (1 - n 2 * n 2) * (1 - n 2 * n 2) = 1 - n 2 * n 2 := by
+        linear_combination (n 2 * n 2) * hn
+      rw [e1, e2] at this; exact this
+  exact le_trans key (mul_le_mul_of_nonneg_right hww h1)
+
+/-- the algebra behind `circleAxisBound`: with `s = √(1 − nᵢ²)` the code returns `s²/(s+ε) + ε`,
+which is at least `s` (by `ε²/(s+ε)`). -/
+theorem cab_scalar (s e : K) (hs : 0 ≤ s) (he : 0 < e) : s ≤ s * s / (s + e) + e := by
+  have hpos : 0 < s + e := by linarith
+  rw [div_add' _ _ _ (ne_of_gt hpos), le_div_iff₀ hpos]
+  nlinarith [mul_self_nonneg e]
+
+/-- a disc offset is within `ρ·b` when `b ≥ 0` and `b² ≥ 1 − nᵢ²` -/
+theorem disc_axis_abs (n w : Pt K) (rho b : K) (hn : pdot n n = 1) (hw : pdot w n = 0) (hrho : 0 ≤ rho)
+    (hww : pdot w w ≤ rho * rho) (i : Fin 3) (hb0 : 0 ≤ b) (hb : 1 - n i * n i ≤ b * b) :
+    -(rho * b) ≤ w i ∧ w i ≤ rho * b := by
+  have h := disc_axis_extent n w (rho * rho) hn hw hww i
+  apply sq_le_imp _ (mul_nonneg hrho hb0)
+  have : rho * rho * (1 - n i * n i) ≤ rho * rho * (b * b) := mul_le_mul_of_nonneg_left hb (mul_self_nonneg rho)
+  nlinarith
+
+
+/-! ## `circleAxisBound` is at least the true extent; cylinder, cone, torus -/
+
+theorem pnormalize_get (sq : K → K) (a : Pt K) (j : Fin 3) :
+    (pnormalize sq a) j = a j * (1 / sq (pdot a a)) := by
+  simp only [pnormalize, pnorm, pscale_get, pdot]
+
+theorem pnormalize_unit (sq : K → K) (hsq : SqrtOK sq) (a : Pt K) (ha : 0 < pdot a a) :
+    pdot (pnormalize sq a) (pnormalize sq a) = 1 := by
+  obtain ⟨h0, h1⟩ := hsq (pdot a a) ha.le
+  have hL : sq (pdot a a) ≠ 0 := by
+    intro h; rw [h] at h1; simp at h1; linarith
+  have e : pdot (pnormalize sq a) (pnormalize sq a) = pdot a a * ((1 / sq (pdot a a)) * (1 / sq (pdot a a))) := by
+    simp only [pdot, pnormalize_get]; ring
+  rw [e]
+  field_simp
+  rw [pow_two]; exact h1.symm
+
+theorem pdot_unitAx (n : Pt K) (i : Fin 3) (sign : K) : pdot n (unitAx i sign) = n i * sign := by
+  rcases fin3 i with rfl | rfl | rfl <;> simp [pdot, unitAx]
+
+theorem unitAx_get (i j : Fin 3) (sign : K) : (unitAx i sign) j = if j = i then sign else 0 := by
+  rcases fin3 i with rfl | rfl | rfl <;> rcases fin3 j with rfl | rfl | rfl <;> simp [unitAx]
+
+/-- `e·sign` with the normal projected out, componentwise -/
+theorem projectOut_unit_get (sq : K → K) (N : Pt K) (i j : Fin 3) (sign : K) :
+    (projectOut sq (unitAx i sign) N) j =
+      (if j = i then sign else 0) - (pnormalize sq N) j * ((pnormalize sq N) i * sign) := by
+  simp only [projectOut, psub_get, pscale_get, pdot_unitAx, unitAx_get]
+
+theorem proj_norm_sq (sq : K → K) (N : Pt K) (i : Fin 3) (sign : K) (hs : sign * sign = 1)
+    (hn : pdot (pnormalize sq N) (pnormalize sq N) = 1) :
+    pdot (projectOut sq (unitAx i sign) N) (projectOut sq (unitAx i sign) N) =
+      1 - (pnormalize sq N) i * (pnormalize sq N) i := by
+  generalize hnn : pnormalize sq N = n at hn ⊢
+  simp only [pdot] at hn ⊢
+  have hg : ∀ j, (projectOut sq (unitAx i sign) N) j = (if j = i then sign else 0) - n j * (n i * sign) := by
+    intro j; rw [projectOut_unit_get, hnn]
+  rw [hg 0, hg 1, hg 2]
+  rcases fin3 i with rfl | rfl | rfl
+  · simp
+    linear_combination (1 - 2 * (n 0 * n 0) + (n 0 * n 0) * (n 0 * n 0 + n 1 * n 1 + n 2 * n 2)) * hs + (n 0 * n 0) * hn
+  · simp
+    linear_combination (1 - 2 * (n 1 * n 1) + (n 1 * n 1) * (n 0 * n 0 + n 1 * n 1 + n 2 * n 2)) * hs + (n 1 * n 1) * hn
+  · simp
+    linear_combination (1 - 2 * (n 2 * n 2) + (n 2 * n 2) * (n 0 * n 0 + n 1 * n 1 + n 2 * n 2)) * hs + (n 2 * n 2) * hn
+
+
+theorem unit_comp_le_one (n : Pt K) (hn : pdot n n = 1) (i : Fin 3) : 0 ≤ 1 - n i * n i := by
+  simp only [pdot] at hn
+  rcases fin3 i with rfl | rfl | rfl <;> nlinarith [mul_self_nonneg (n 0), mul_self_nonneg (n 1), mul_self_nonneg (n 2)]
+
+/-- closed form of `circleAxisBound(axis, normal, ±1)` for a non-zero normal: with `n = normal/|normal|`,
+`P = 1 − nᵢ²` and `s = √P` it is `± (P/(s + ε) + ε)`. -/
+theorem cab_eq (sq : K → K) (hsq : SqrtOK sq) (eps : K) (heps : 0 < eps) (N : Pt K) (hN : 0 < pdot N N)
+    (i : Fin 3) (sign : K) (hs : sign = 1 ∨ sign = -1) :
+    circleAxisBound sq eps i N sign =
+      sign * ((1 - (pnormalize sq N) i * (pnormalize sq N) i) /
+        (sq (1 - (pnormalize sq N) i * (pnormalize sq N) i) + eps) + eps) := by
+  have hn := pnormalize_unit sq hsq N hN
+  have hss : sign * sign = 1 := by rcases hs with rfl | rfl <;> ring
+  have hP := unit_comp_le_one _ hn i
+  have hnorm := proj_norm_sq sq N i sign hss hn
+  have hsP := hsq _ hP
+  have hden : 0 < sq (1 - (pnormalize sq N) i * (pnormalize sq N) i) + eps := by linarith [hsP.1]
+  have hpi : (projectOut sq (unitAx i sign) N) i = sign * (1 - (pnormalize sq N) i * (pnormalize sq N) i) := by
+    rw [projectOut_unit_get]; simp; ring
+  unfold circleAxisBound
+  simp only [pscale_get]
+  have e1 : pnorm sq (projectOut sq (unitAx i sign) N) =
+      sq (pdot (projectOut sq (unitAx i sign) N) (projectOut sq (unitAx i sign) N)) := rfl
+  rw [e1, hnorm, hpi, sabs_eq]
+  congr 2
+  rw [abs_mul, abs_mul, abs_of_nonneg hP, abs_of_pos (one_div_pos.mpr hden)]
+  have : |sign| = 1 := by rcases hs with rfl | rfl <;> simp
+  rw [this]; field_simp
+
+/-- **`circleAxisBound` is at least the true extent** `√(1 − nᵢ²)` of the unit disc with normal `n`
+(in squared form), it is non-negative, and the `sign = -1` value is its negative. -/
+theorem cab_props (sq : K → K) (hsq : SqrtOK sq) (eps : K) (heps : 0 < eps) (N : Pt K) (hN : 0 < pdot N N)
+    (i : Fin 3) :
+    0 ≤ circleAxisBound sq eps i N 1 ∧
+    1 - (pnormalize sq N) i * (pnormalize sq N) i ≤ circleAxisBound sq eps i N 1 * circleAxisBound sq eps i N 1 ∧
+    circleAxisBound sq eps i N (-1) = -(circleAxisBound sq eps i N 1) := by
+  have hn := pnormalize_unit sq hsq N hN
+  have hP := unit_comp_le_one _ hn i
+  obtain ⟨hs0, hs1⟩ := hsq _ hP
+  rw [cab_eq sq hsq eps heps N hN i 1 (Or.inl rfl), cab_eq sq hsq eps heps N hN i (-1) (Or.inr rfl)]
+  generalize 1 - (pnormalize sq N) i * (pnormalize sq N) i = P at *
+  have hge := cab_scalar (sq P) eps hs0 heps
+  rw [hs1] at hge
+  refine ⟨by linarith, ?_, by ring⟩
+  have h2 : sq P * sq P ≤ (P / (sq P + eps) + eps) * (P / (sq P + eps) + eps) :=
+    mul_self_le_mul_self hs0 hge
+  rw [hs1] at h2
+  linarith
+
+theorem cabVec_get (sq : K → K) (eps : K) (N : Pt K) (sign : K) (i : Fin 3) :
+    (cabVec sq eps N sign) i = circleAxisBound sq eps i N sign := by
+  rcases fin3 i with rfl | rfl | rfl <;> simp [cabVec]
+
+/-- Cylinder: a point `P1 + t·(P2−P1) + w` with `0 ≤ t ≤ 1`, `w ⟂ axis`, `|w| ≤ Radius` (exactly the
+points `Cylinder.Contains` accepts) lies in `[Cylinder.Min(), Cylinder.Max()]`. -/
+theorem cylinder_bounded' (sq : K → K) (hsq : SqrtOK sq) (eps : K) (heps : 0 < eps) (p1 p2 : Pt K) (r : K)
+    (hax : 0 < pdot (psub p2 p1) (psub p2 p1)) (hr : 0 ≤ r) (t : K) (ht0 : 0 ≤ t) (ht1 : t ≤ 1) (w : Pt K)
+    (hw : pdot w (pnormalize sq (psub p2 p1)) = 0) (hww : pdot w w ≤ r * r) (p : Pt K)
+    (hp : ∀ i, p i = p1 i + (p2 i - p1 i) * t + w i) : InBox true (cylinderBox sq eps p1 p2 r) p := by
+  intro i _
+  have hn := pnormalize_unit sq hsq _ hax
+  obtain ⟨hb0, hb1, hbneg⟩ := cab_props sq hsq eps heps (psub p2 p1) hax i
+  have hwi := disc_axis_abs _ w r _ hn hw hr hww i hb0 hb1
+  simp only [cylinderBox, padd_get, pscale_get, pmin_get, pmax_get, cabVec_get, hbneg]
+  rw [hp i]
+  have hq1 : min (p1 i) (p2 i) ≤ p1 i + (p2 i - p1 i) * t := by
+    rcases le_total (p1 i) (p2 i) with h | h
+    · rw [min_eq_left h]; nlinarith
+    · rw [min_eq_right h]; nlinarith
+  have hq2 : p1 i + (p2 i - p1 i) * t ≤ max (p1 i) (p2 i) := by
+    rcases le_total (p1 i) (p2 i) with h | h
+    · rw [max_eq_right h]; nlinarith
+    · rw [max_eq_left h]; nlinarith
+  constructor <;> nlinarith [hwi.1, hwi.2]
+
+/-- Cone: a point `Base + t·(Tip−Base) + w` with `0 ≤ t ≤ 1`, `w ⟂ axis`, `|w| ≤ Radius·(1−t)` lies in
+`[Cone.Min(), Cone.Max()]`. -/
+theorem cone_bounded' (sq : K → K) (hsq : SqrtOK sq) (eps : K) (heps : 0 < eps) (tip base : Pt K) (r : K)
+    (hax : 0 < pdot (psub tip base) (psub tip base)) (hr : 0 ≤ r) (t : K) (ht0 : 0 ≤ t) (ht1 : t ≤ 1) (w : Pt K)
+    (hw : pdot w (pnormalize sq (psub tip base)) = 0) (hww : pdot w w ≤ (r * (1 - t)) * (r * (1 - t))) (p : Pt K)
+    (hp : ∀ i, p i = base i + (tip i - base i) * t + w i) : InBox true (coneBox sq eps tip base r) p := by
+  intro i _
+  have hn := pnormalize_unit sq hsq _ hax
+  obtain ⟨hb0, hb1, hbneg⟩ := cab_props sq hsq eps heps (psub tip base) hax i
+  have hrt : 0 ≤ r * (1 - t) := mul_nonneg hr (by linarith)
+  have hwi := disc_axis_abs _ w (r * (1 - t)) _ hn hw hrt hww i hb0 hb1
+  simp only [coneBox, padd_get, pscale_get, pmin_get, pmax_get, cabVec_get, hbneg]
+  rw [hp i]
+  generalize circleAxisBound sq eps i (psub tip base) 1 = b at *
+  constructor
+  · rcases le_total (-b * r + base i) (tip i) with h | h
+    · rw [min_eq_left h]; nlinarith [hwi.1]
+    · rw [min_eq_right h]; nlinarith [hwi.1]
+  · rcases le_total (b * r + base i) (tip i) with h | h
+    · rw [max_eq_right h]; nlinarith [hwi.2]
+    · rw [max_eq_left h]; nlinarith [hwi.2]
+
+/-- Torus: a point `Center + u + v` with `u ⟂ Axis`, `|u| ≤ OuterRadius` (the ring point) and
+`|v| ≤ InnerRadius` lies in `[Torus.Min(), Torus.Max()]`. -/
+theorem torus_bounded' (sq : K → K) (hsq : SqrtOK sq) (eps : K) (heps : 0 < eps) (center axis : Pt K)
+    (outer inner : K) (hax : 0 < pdot axis axis) (ho : 0 ≤ outer) (hi0 : 0 ≤ inner) (u v : Pt K)
+    (hu : pdot u (pnormalize sq axis) = 0) (huu : pdot u u ≤ outer * outer) (hvv : pdot v v ≤ inner * inner)
+    (p : Pt K) (hp : ∀ i, p i = center i + u i + v i) : InBox true (torusBox sq eps center axis outer inner) p := by
+  intro i _
+  have hn := pnormalize_unit sq hsq _ hax
+  obtain ⟨hb0, hb1, hbneg⟩ := cab_props sq hsq eps heps axis hax i
+  have hui := disc_axis_abs _ u outer _ hn hu ho huu i hb0 hb1
+  have hvi : -inner ≤ v i ∧ v i ≤ inner := by
+    apply sq_le_imp _ hi0
+    simp only [pdot] at hvv
+    rcases fin3 i with rfl | rfl | rfl <;>
+      nlinarith [mul_self_nonneg (v 0), mul_self_nonneg (v 1), mul_self_nonneg (v 2)]
+  have hex : (mk3 inner inner inner : Pt K) i = inner := by rcases fin3 i with rfl | rfl | rfl <;> simp
+  simp only [torusBox, padd_get, psub_get, pscale_get, cabVec_get, hbneg, hex]
+  rw [hp i]
+  constructor <;> nlinarith [hui.1, hui.2, hvi.1, hvi.2]
 
 end M3d.Bd
